@@ -85,6 +85,22 @@ def probe(comp, kind):
     return rows, t
 
 
+def reference_digest():
+    """what the constructors build when no limits / optional parameters are given, and how such components behave:
+    loading a file must not change it (no shared defaults, no module-level state)"""
+    from sysloss.system import System
+    with warnings.catch_warnings():
+        warnings.simplefilter("ignore")
+        s = System("ref", C.Source("s", vo=12.0))
+        s.add_comp("s", comp=C.Converter("c", vo=5.0, eff=0.9))
+        s.add_comp("c", comp=C.LinReg("l", vo=3.3))
+        s.add_comp("l", comp=C.PLoad("p", pwr=0.5))
+        s.add_comp("s", comp=C.RLoss("r", rs=0.5))
+        s.add_comp("r", comp=C.ILoad("i", ii=0.25))
+        return digest([df_rows(s.params(limits=True)), df_rows(s.limits()), table_wire(s.solve()),
+                       digest(comp_pay(C.PSwitch("x"))), digest(comp_pay(C.Rectifier("y")))])
+
+
 def run_case(st, cid, rng, tmpdir):
     kind = st["kind"]
     keys = KEYS[kind]
@@ -136,6 +152,7 @@ def run_case(st, cid, rng, tmpdir):
         case["ra"], case["pa"] = probe(a, kind)
     if a2 is not None:
         case["da2"] = digest(comp_pay(a2))
+    case["ref"] = reference_digest() if (L is not None or cid % 7 == 0) else ""
     if b is not None:
         case["db"] = digest(comp_pay(b))
         case["rb"], case["pb"] = probe(b, kind)
